@@ -128,4 +128,97 @@ theorem sim_all {m : Bool} {qi q : Nat} (cx : Ctx m qi q) : ∀ n, IH m qi q n :
             subst hw
             exact sim_utf8 cx (by omega) hst (hg' k) hv' ih
 
+/-! ## whole literals -/
+
+theorem decodeLit_wrap {m : Bool} {q : Nat} {b : List Nat} (hq : IsQ q) :
+    decodeLit m (q :: (b ++ [q])) = decBody m q b := by
+  have : isQuote q = true := by rcases hq with h | h | h <;> (subst h; rfl)
+  simp [decodeLit, this]
+
+/-- a literal that decodes is `q · body · q` -/
+theorem decodeLit_inv {m : Bool} {s v : List Nat} (h : decodeLit m s = some v) :
+    ∃ q b, IsQ q ∧ s = q :: (b ++ [q]) ∧ decBody m q b = some v := by
+  cases s with
+  | nil => simp [decodeLit] at h
+  | cons q rest =>
+    simp only [decodeLit] at h
+    split at h
+    · rename_i hc
+      obtain ⟨hq, hl⟩ := hc
+      have hq' : IsQ q := by
+        simp only [isQuote, Bool.or_eq_true, decide_eq_true_eq] at hq
+        rcases hq with (h | h) | h
+        · exact Or.inl h
+        · exact Or.inr (Or.inl h)
+        · exact Or.inr (Or.inr h)
+      have hne : rest ≠ [] := by intro h'; subst h'; simp at hl
+      have hr : rest = rest.dropLast ++ [q] := by
+        have h1 := List.dropLast_concat_getLast hne
+        have h2 : rest.getLast hne = q := by
+          have := List.getLast?_eq_some_getLast hne
+          rw [this] at hl
+          exact Option.some.inj hl
+        rw [h2] at h1
+        exact h1.symm
+      exact ⟨q, rest.dropLast, hq', by rw [← hr], h⟩
+    · simp at h
+
+theorem chooseQuote_isQ (a : Bool) (b : List Nat) : IsQ (chooseQuote a b) := by
+  unfold chooseQuote IsQ
+  simp only []
+  repeat' split
+  all_goals omega
+
+theorem minifyString_wrap {a : Bool} {qi : Nat} {b : List Nat} (hb : b ≠ []) :
+    minifyString a (qi :: (b ++ [qi])) = chooseQuote a b :: (rep (chooseQuote a b) b ++ [chooseQuote a b]) := by
+  unfold minifyString
+  have hl : ¬ (qi :: (b ++ [qi])).length < 3 := by
+    cases b with
+    | nil => exact absurd rfl hb
+    | cons x b' => simp
+  rw [if_neg hl]
+  simp
+
+theorem minifyString_empty {a : Bool} {qi : Nat} : minifyString a [qi, qi] = [34, 34] := by
+  simp [minifyString]
+
+
+theorem templateLit_wrap {b : List Nat} : templateLit (96 :: (b ++ [96])) = 96 :: (rep 96 b ++ [96]) := by
+  unfold templateLit
+  have hl : ¬ (96 :: (b ++ [96])).length < 2 := by simp
+  rw [if_neg hl]
+  simp
+
+/-- value preservation for `'…'` / `"…"` literals on the guarded fragment -/
+theorem minifyString_value {m a : Bool} {s v : List Nat} (hq : s.head? = some 39 ∨ s.head? = some 34)
+    (hv : decodeLit m s = some v) (hg : Guard ((s.drop 1).dropLast) = true) :
+    decodeLit m (minifyString a s) = some v := by
+  obtain ⟨qi, b, hqi, rfl, hb⟩ := decodeLit_inv hv
+  have hne : qi ≠ 96 := by
+    simp only [List.head?_cons, Option.some.injEq] at hq
+    omega
+  have hgb : Guard b = true := by simpa using hg
+  by_cases hbn : b = []
+  · subst hbn
+    have : minifyString a (qi :: ([] ++ [qi])) = [34, 34] := minifyString_empty
+    rw [this]
+    simp only [decBody_nil, Option.some.injEq] at hb
+    subst hb
+    cases m <;> rfl
+  · rw [minifyString_wrap hbn, decodeLit_wrap (chooseQuote_isQ a b), rep_eq_repA]
+    have cx : Ctx m qi (chooseQuote a b) := ⟨hqi, chooseQuote_isQ a b, fun h => absurd h hne⟩
+    exact sim_all cx b.length b (Nat.le_refl _) v hgb hb
+
+/-- value preservation for substitution-free templates on the guarded fragment -/
+theorem templateLit_value {m : Bool} {s v : List Nat} (hq : s.head? = some 96)
+    (hv : decodeLit m s = some v) (hg : Guard ((s.drop 1).dropLast) = true) :
+    decodeLit m (templateLit s) = some v := by
+  obtain ⟨qi, b, hqi, rfl, hb⟩ := decodeLit_inv hv
+  have h96 : qi = 96 := by simpa using hq
+  subst h96
+  have hgb : Guard b = true := by simpa using hg
+  rw [templateLit_wrap, decodeLit_wrap hqi, rep_eq_repA]
+  have cx : Ctx m 96 96 := ⟨hqi, hqi, fun h => h⟩
+  exact sim_all cx b.length b (Nat.le_refl _) v hgb hb
+
 end Verif.Proofs.JsString
